@@ -107,8 +107,9 @@ example :
 open PycModel.StmtSkel PycModel.View PycModel.FullExpr in
 /-- **Statement ASTs mirror C's statement nesting** (6.8): for every statement `st` of
 `S ::= X ; | ; | { S* } | if ( X ) S | if ( X ) S else S | while ( X ) S | do S while ( X ) ; |
-return X? ; | break ; | continue ; | case X : S | default : S | switch ( X ) S` (expressions `X` as
-in `C02`), of any size and nesting depth,
+return X? ; | break ; | continue ; | case X : S | default : S | switch ( X ) S | for ( X? ; X? ; X? ) S |
+goto name ; | name : S` (expressions `X` as
+in `C02`: every operator, call, subscript and constant above type names), of any size and nesting depth,
 `_parse_statement` of the parser model returns `st.val`: an `else` belongs to the nearest `if` that
 can take it (`WFS`: the `then` branch of an `if ... else` does not end with an `else`-less `if`),
 loop and branch bodies are the single following statement, the items of a block keep their source
@@ -178,6 +179,34 @@ example : ∃ s',
     ("SEMI", ";"), ("ID", "c"), ("SEMI", ";"), ("DEFAULT", "default"), ("COLON", ":"), ("ID", "d"), ("SEMI", ";"),
     ("RBRACE", "}")]
   obtain ⟨s', hr, hs', _⟩ := parse_stmt st hwf _ [] (by simpa [st, S.flat, SL.flat, X.flat] using hs)
+    (by intro _ k v r h; cases h) 300 (by decide)
+  exact ⟨s', hr, hs'⟩
+
+open PycModel.StmtSkel PycModel.View PycModel.FullExpr in
+/-- non-vacuity, `for` / `goto` / labels: `for ( ; i < n ; i ++ ) L : if ( a [ i ] ) goto L ;` -/
+example : ∃ s',
+    run 300 .statement
+      (initState ([("FOR", "for"), ("LPAREN", "("), ("SEMI", ";"), ("ID", "i"), ("LT", "<"), ("ID", "n"), ("SEMI", ";"),
+                   ("ID", "i"), ("PLUSPLUS", "++"), ("RPAREN", ")"), ("ID", "L"), ("COLON", ":"), ("IF", "if"), ("LPAREN", "("),
+                   ("ID", "a"), ("LBRACKET", "["), ("ID", "i"), ("RBRACKET", "]"), ("RPAREN", ")"), ("GOTO", "goto"), ("ID", "L"),
+                   ("SEMI", ";")].map (fun t => SEv.tok t.1 t.2) ++ [.eof]))
+      = .ok (mk .For (tc 0) [.none,
+              mk .BinaryOp (tc 3) [.str "<", ParenExpr.idNode 3 "i", ParenExpr.idNode 5 "n"],
+              mk .UnaryOp (tc 7) [.str "p++", ParenExpr.idNode 7 "i"],
+              mk .Label (tc 10) [.str "L",
+                mk .If (tc 12) [mk .ArrayRef (tc 14) [ParenExpr.idNode 14 "a", ParenExpr.idNode 16 "i"],
+                  mk .Goto (tc 19) [.str "L"], .none]]]) s' ∧ SeesT s' [] := by
+  let st : S := .for_ none (some (.bin "LT" "<" (.id "i") (.id "n"))) (some (.post "PLUSPLUS" "++" (.id "i")))
+    (.label "L" (.ifThen (.index (.id "a") (.id "i")) (.goto_ "L")))
+  have hwf : WFS st := by
+    refine .for_ _ _ _ _ (by intro e h; cases h) ?_ ?_ (.label _ _ (.ifThen _ _ (.index _ _ _ (by omega) (.id _ _) (.id _ _)) (.goto_ _)))
+    · intro e h; cases h; exact .bin _ 6 _ _ _ _ (by decide) (by omega) (.id _ _) (.id _ _)
+    · intro e h; cases h; exact .post _ _ _ _ (by omega) (by decide) (.id _ _)
+  have hs := ParenExpr.seesT_init [("FOR", "for"), ("LPAREN", "("), ("SEMI", ";"), ("ID", "i"), ("LT", "<"), ("ID", "n"), ("SEMI", ";"),
+    ("ID", "i"), ("PLUSPLUS", "++"), ("RPAREN", ")"), ("ID", "L"), ("COLON", ":"), ("IF", "if"), ("LPAREN", "("),
+    ("ID", "a"), ("LBRACKET", "["), ("ID", "i"), ("RBRACKET", "]"), ("RPAREN", ")"), ("GOTO", "goto"), ("ID", "L"),
+    ("SEMI", ";")]
+  obtain ⟨s', hr, hs', _⟩ := parse_stmt st hwf _ [] (by simpa [st, S.flat, X.flat, oflat] using hs)
     (by intro _ k v r h; cases h) 300 (by decide)
   exact ⟨s', hr, hs'⟩
 
